@@ -83,6 +83,7 @@ pub const BASE_PAIRS: &[(usize, &str, &str)] = &[
     (0, "b16-abstract-parent-merging", "{ i { x: a ... on T { x: a } ... on V { x: a } } u { ... on I { y: a } ... on V { y: a } ... on T { y: a } } }"),
     (0, "b17-custom-scalar-literals", "{ cn(s: [null, 1, {k: null}]) c(s: [null]) x: cn(s: {k: [null]}) y: cn(s: A) }"),
     (2, "b18-leaf-and-composite-under-type-conditions", "{ ab { ... on A { k: n } ... on B { j: o { s } k: n } } }"),
+    (2, "b19-leaf-beside-composite-disjoint-parents", "{ ab { ... on A { k: n } ... on B { j: o { s } } } }"),
     (2, "b15-response-shapes-fragments", "{ ab { ...FA ...FB } } fragment FA on A { v: ln o { o { s } } } fragment FB on B { v: ln o { o { s } } }"),
 ];
 
